@@ -564,7 +564,7 @@ def write_evidence(prop, tier, seed, results, jobs, wall, pool, info, selftest, 
       'components_real': ['every module of malt/ from the working tree', 'CPython threading.local, weakref, inspect/linecache, importlib',
                           'file system holding user sources and generated modules'],
       'components_stubbed': ['thread scheduling (baton scheduler)', 'the locks malt creates (SimLock): %s' % info.get('sim_locks'),
-                             'GC timing (gc disabled; collections are simulator events)', 'temp-file names', 'ag_logging sinks',
+                             'GC timing (gc disabled; collections are simulator events)', 'temp-file names', 'capture handler on the stdlib root logger (malt ag_logging itself is real)',
                              'full-disk temp file (when that fault is chosen)'],
       'determinism_selftest': selftest,
       'aslr': pool.aslr,
